@@ -5,6 +5,7 @@ package otter
 // key exactly once and no key twice.  Judged by spec/IterHist.tla.
 
 import (
+	"iter"
 	"bufio"
 	"encoding/json"
 	"os"
@@ -31,6 +32,7 @@ type itScenario struct {
 	TTL  int64   `json:"ttl"`
 	Step int64   `json:"step"`
 	Acts []itAct `json:"acts"`
+	Pre  int64   `json:"pre"` // the iterator is obtained first, the clock moves by Pre seconds, only then is it consumed
 }
 
 // itAct: what the loop body does after the At-th yield (0-based): adv = the clock moves by D seconds, set = Set(K, new
@@ -119,25 +121,46 @@ func runIterBody(sc itScenario) itBodyResult {
 		}
 		idx++
 	}
+	// the iterator is obtained ... (an iterator is a value: it may be kept and consumed later)
+	var (
+		itAll  iter.Seq2[int, int]
+		itKeys iter.Seq[int]
+		itVals iter.Seq[int]
+		itEnts iter.Seq[Entry[int, int]]
+	)
 	switch sc.Kind {
 	case "keys":
-		for k := range c.Keys() {
+		itKeys = c.Keys()
+	case "values":
+		itVals = c.Values()
+	case "coldest":
+		itEnts = c.Coldest()
+	case "hottest":
+		itEnts = c.Hottest()
+	default:
+		itAll = c.All()
+	}
+	// ... time passes ...
+	if sc.Pre > 0 {
+		clk.now.Add(sc.Pre * sec)
+		res.T0 = (clk.NowNano() - base) / sec
+	}
+	// ... and only now is it consumed
+	switch sc.Kind {
+	case "keys":
+		for k := range itKeys {
 			body(k, -1)
 		}
 	case "values":
-		for v := range c.Values() {
+		for v := range itVals {
 			body(v%10000, v)
 		}
-	case "coldest":
-		for e := range c.Coldest() {
-			body(e.Key, e.Value)
-		}
-	case "hottest":
-		for e := range c.Hottest() {
+	case "coldest", "hottest":
+		for e := range itEnts {
 			body(e.Key, e.Value)
 		}
 	default:
-		for k, v := range c.All() {
+		for k, v := range itAll {
 			body(k, v)
 		}
 	}
